@@ -68,7 +68,8 @@ class InvalidInputError(Fault):
 
     def __init__(self, faultstring="", data=""):
         super(InvalidInputError, self) \
-                     .__init__('Client.InvalidInput', repr((faultstring, data)))
+                     .__init__(self.CODE or 'Client.InvalidInput',
+                                                  repr((faultstring, data)))
 
 
 InvalidRequestError = InvalidInputError
